@@ -151,6 +151,9 @@ def dress(r, c):
     if path == "fit":
         return c
     c["ext"] = r.choice([".npy", ".npy", ".fits", ".txt", ".data"])
+    if (c["scale"] == 1 and c.get("dtype") in (None, "uint8") and r.random() < 0.25
+            and all(0 <= v <= 255 for row in c["data"] for v in row)):
+        c["ext"] = r.choice([".png", ".bmp", ".tiff", ".tif"])        # 8-bit grey-level pictures through PIL
     c["as_path"] = r.random() < 0.3
     if path in ("lcai", "lcai_pos"):
         return c
